@@ -413,7 +413,7 @@ def ref_spec(spec, v, leaf=None):
                     else _default_instance(fac)
     for fname, expr in spec.get('init_false_setter') or ():
         imgs[fname] = values.eval_expr(expr)
-    post = spec.get('post')
+    post = spec.get('post') or spec.get('post_model')      # (post_model: the hook is inherited, not in the class body)
     if post and post != 'count' and post[0] == 'raise_if':
         _, fname, expr, _exc = post
         trig = values.eval_expr(expr)
